@@ -40,24 +40,21 @@ func (p *MP4ChunkParser) Parse() error {
 		Data:          nil,
 	}
 	for {
-		err := p.readUntil(int(nextBoxStart) + 8)
-		if err != nil {
-			if err != io.EOF {
-				return err
+		// An error (including io.EOF) may arrive together with data.
+		// That data is processed before the error is considered.
+		pending := p.readUntil(int(nextBoxStart) + 8)
+		if p.contentEnd < int(nextBoxStart)+8 { // No complete box header
+			if pending != io.EOF {
+				return pending
 			}
-			// EOF
-			if p.contentEnd > 0 {
-				cd.Data = p.buf[:p.contentEnd]
-				err := p.callBack(cd)
-				if err != nil {
-					return err
-				}
-			}
-			return nil
+			return p.sendTrailing(cd)
 		}
 		size := binary.BigEndian.Uint32(p.buf[nextBoxStart : nextBoxStart+4])
 		currBox = string(p.buf[nextBoxStart+4 : nextBoxStart+8])
 		if size < 8 {
+			if pending != nil && pending != io.EOF {
+				return pending
+			}
 			// size 0 (box extends to end of file) and 1 (64-bit size) are not supported; 2-7 are invalid.
 			// Without this check, a zero size makes the loop spin without reading any more data.
 			return fmt.Errorf("chunkparser: unsupported size %d of box %q", size, currBox)
@@ -69,11 +66,10 @@ func (p *MP4ChunkParser) Parse() error {
 		case "mdat":
 			mdatEnd = nextBoxStart
 		}
-		err = p.readUntil(int(nextBoxStart))
-		if err != nil && err != io.EOF {
-			return err
+		if pending == nil {
+			pending = p.readUntil(int(nextBoxStart))
 		}
-		if mdatEnd == uint32(p.contentEnd) {
+		if mdatEnd != 0 && mdatEnd == uint32(p.contentEnd) {
 			// mdat is complete
 			cd.Data = p.buf[:mdatEnd]
 			err := p.callBack(cd)
@@ -88,17 +84,22 @@ func (p *MP4ChunkParser) Parse() error {
 			nextBoxStart -= mdatEnd
 			mdatEnd = 0
 		}
-		if err == io.EOF {
-			if p.contentEnd > 0 {
-				cd.Data = p.buf[:p.contentEnd]
-				err := p.callBack(cd)
-				if err != nil {
-					return err
-				}
+		if pending != nil {
+			if pending != io.EOF {
+				return pending
 			}
-			return nil
+			return p.sendTrailing(cd)
 		}
 	}
+}
+
+// sendTrailing sends any remaining data at end of input.
+func (p *MP4ChunkParser) sendTrailing(cd ChunkData) error {
+	if p.contentEnd > 0 {
+		cd.Data = p.buf[:p.contentEnd]
+		return p.callBack(cd)
+	}
+	return nil
 }
 
 // GetBuffer returns the buffer used by the parser.
